@@ -62,7 +62,7 @@ def generate(seed, tier):
         ops.append(["rule_step", int(rng.random() < 0.6), 0])
     two = mode == "step" and rule["kind"] in ("mwkr_pair", "score", "tie") and rng.random() < 0.4
     cfg = {"instance": spec, "rule": rule, "chooser": rng.choice(["first", "random"]), "chooser_how": rng.choice(["str", "enum", "callable"]),
-           "filter": filt, "mode": mode, "two_dispatchers": two,
+           "filter": filt, "mode": mode, "two_dispatchers": two, "call_form": rng.choice(["call", "call", "solve", "solve_with_dispatcher", "twice"]),
            "clock_seed": rng.randrange(1 << 30), "other_seed": rng.randrange(1 << 30)}
     if two:
         # a second dispatcher over a DIFFERENT instance shares the solver (and, for the observer-based rule, the
@@ -369,24 +369,39 @@ def execute_call(case, ctx):
     clock = SimClock(cfg["clock_seed"], ctx)
     calls = {"n": 0}
     orig_step = solver.step
-    cap = n_ops(cfg["instance"]) + 1
+    cap_box = [n_ops(cfg["instance"]) + 1]
 
     class Runaway(Exception):
         pass
 
     def counted_step(dispatcher):
         calls["n"] += 1
-        if calls["n"] > cap:
+        if calls["n"] > cap_box[0]:
             raise Runaway()
         return orig_step(dispatcher)
 
     solver.step = counted_step
     ctx.step = 0
+    form = cfg.get("call_form", "call")
     with patched(bs, "time", clock):
         try:
-            sched = solver(inst)
+            if form == "solve":
+                sched = solver.solve(inst)
+            elif form == "solve_with_dispatcher":
+                from job_shop_lib.dispatching import Dispatcher
+
+                sched = solver.solve(inst, Dispatcher(inst, ready_operations_filter=solver.ready_operations_filter))
+            elif form == "twice":
+                # the same solver object on another instance first (a solver is reusable)
+                other = build({"jobs": [[[[0], 2], [[1], 1]], [[[1], 3]], [[[0], 1]]], "name": "other"})
+                main_cap, cap_box[0] = cap_box[0], 5
+                solver(other)
+                calls["n"], cap_box[0] = 0, main_cap
+                sched = solver(inst)
+            else:
+                sched = solver(inst)
         except Runaway:
-            ctx.fail("terminates_within_n_steps", f"solver(instance) made more than {cap} steps on a {cap - 1}-operation instance")
+            ctx.fail("terminates_within_n_steps", f"solver(instance) made more than {cap_box[0]} steps on a {cap_box[0] - 1}-operation instance")
             return
         except Exception as e:  # noqa: BLE001
             own = owner_of_exception(e, "C04")
@@ -401,6 +416,9 @@ def execute_call(case, ctx):
     errs = check_feasible(jobs, lists)
     ctx.check(not errs and sched.is_complete(), "call_returns_complete_feasible_schedule", lambda: f"solver(instance): complete={sched.is_complete()} errors={errs[:3]}")
     md = sched.metadata
+    if form in ("solve", "solve_with_dispatcher"):
+        ctx.sim_time = sched.makespan()
+        return  # solve() promises the schedule, the metadata is written by __call__
     et = md.get("elapsed_time")
     ctx.check(et is not None and et >= 0, "elapsed_time_non_negative", lambda: f"metadata['elapsed_time'] = {et!r} (simulated clock advanced by {clock.now - clock.start:.3f}s over {clock.reads} reads)")
     ctx.check(md.get("solved_by") == type(solver).__name__, "solved_by_is_class_name", lambda: f"metadata['solved_by'] = {md.get('solved_by')!r}, class {type(solver).__name__}")
